@@ -54,6 +54,14 @@ fn real_main(args: Vec<String>) -> i32 {
         }
         "run" => {
             let prop = &args[2];
+            if args[3] == "boundary" {
+                // the representation boundary (indices near usize::MAX), run with a binary built WITHOUT overflow checks
+                std::panic::set_hook(Box::new(|_| {}));
+                let mut c = ctx::Ctx::new(&args[2], false, args[4].parse().unwrap_or(1), &args[5]);
+                props::boundary(&mut c);
+                c.finish(&args[5]);
+                return 0;
+            }
             let soak = args[3] == "soak";
             let thorough = args[3] == "thorough" || soak;
             let seed: u64 = args[4].parse().unwrap_or(1);
